@@ -175,13 +175,15 @@ def extra_checks(rng, tier, notes):
         sig = rand_sig(rng, max_in=3, max_out=2)
         text = show(sig)
         ann = lambda a: Annotated[np.ndarray, ",".join(f"{x}:{p}" for x, p in a)]
-        params = {f"a{i}": ann(a) for i, a in enumerate(sig[0])}
+        # parameter names in declaration order: any identifiers, in any (non-alphabetical) order
+        pnames = rng.sample(["temp", "salt", "w", "v", "u", "hi", "lo", "b", "a", "_x", "Zeta"], len(sig[0]))
+        params = {nm: ann(a) for nm, a in zip(pnames, sig[0])}
         ret = ann(sig[1][0]) if len(sig[1]) == 1 else Tuple[tuple(ann(a) for a in sig[1])]
 
         def f(*args):
             return args
         f.__annotations__ = dict(params, **{"return": ret})
-        case = {"text": text}
+        case = {"text": text, "parameters": pnames}
         try:
             got = str(as_grid_ufunc()(f).signature)
             want = str(S.from_string(text))
